@@ -5,7 +5,7 @@ import numpy as np
 from rv import dense, env, tree_evolve, tree_states, trees
 from rv.props import c10
 
-KINDS = ["linear", "binary", "mctdh2", "mctdh3", "random"]
+KINDS = ["linear", "binary", "binary", "mctdh2", "mctdh3", "random", "random"]
 
 
 def physical_density(vec, dim):
@@ -38,6 +38,8 @@ def run_tree_case(ctx):
         kind = "linear"
         tree, tdesc = ctx.lib(trees.build_tree, kind, basis, rng, bool(rng.random() < 0.5), what="tree-constructor", promised=False)
     ctx.cls("tree-kind:" + kind)
+    if any(len(node.children) >= 2 and any(getattr(b, "is_electron", False) for b in node.basis_sets) for node in tree.node_list):
+        ctx.cls("tree:electronic-node-with-two-or-more-children")
     aux = ctx.lib(tree.add_auxiliary_space, "Q", what="BasisTree.add_auxiliary_space")
     # P and Q sets, node by node
     pq = {}
